@@ -417,7 +417,12 @@ def raw_item(lst, idx):
         from .values import _elem_wrap
         return _elem_wrap(lst.kind, z3.Select(lst.arr, _zint(idx)))
     if isinstance(lst, VList):
-        return lst.items[idx]
+        if isinstance(idx, int):
+            return lst.items[idx]
+        snap = lst.snapshot()
+        snap.make_symbolic("ref")
+        from .values import _elem_wrap
+        return _elem_wrap("ref", z3.Select(snap.arr, _zint(idx)))
     return lst[idx]
 
 
